@@ -440,9 +440,42 @@ where
             let mut m2 = msgs.clone();
             m2.push(b"x".to_vec());
             verify::<CS>(h, &pk, &sig, hdr.as_deref(), Some(&m2));
+            // the octets of the honest signature with a point of order 3 added to A: on the curve, outside the
+            // prime-order group, invisible to the pairing -- octets_to_signature refuses them
+            {
+                use bls12_381_plus::group::Curve;
+                let mut enc = [0u8; 48];
+                enc[0] = 0x80;
+                if let Some(t) = Option::<bls12_381_plus::G1Affine>::from(bls12_381_plus::G1Affine::from_compressed_unchecked(&enc)) {
+                    let shifted = (sig.A + bls12_381_plus::G1Projective::from(t)).to_affine().to_compressed();
+                    let mut sb2 = s.to_bytes().to_vec();
+                    sb2[..48].copy_from_slice(&shifted);
+                    let o = dec(h, "sig", &sb2);
+                    h.expect(!o.is_panic() && !o.is_ok(), "C10.non_subgroup_point", "Signature::from_bytes accepted a point outside the prime-order group", &[h.last()]);
+                }
+            }
             let d = rand_subset(h, l);
             let ph = rand_header(h);
             if let Some(p) = honest_proof::<CS>(h, &pk, &s.to_bytes(), hdr.as_deref(), ph.as_deref(), &msgs, &d, true) {
+                {
+                    use bls12_381_plus::group::Curve;
+                    let mut enc = [0u8; 48];
+                    enc[0] = 0xa0;
+                    if let Some(t) = Option::<bls12_381_plus::G1Affine>::from(bls12_381_plus::G1Affine::from_compressed_unchecked(&enc)) {
+                        let pb = p.to_bytes();
+                        for slot in 0..3usize {
+                            let mut arr = [0u8; 48];
+                            arr.copy_from_slice(&pb[48 * slot..48 * slot + 48]);
+                            if let Some(q) = Option::<bls12_381_plus::G1Affine>::from(bls12_381_plus::G1Affine::from_compressed(&arr)) {
+                                let shifted = (bls12_381_plus::G1Projective::from(q) + bls12_381_plus::G1Projective::from(t)).to_affine().to_compressed();
+                                let mut pb2 = pb.clone();
+                                pb2[48 * slot..48 * slot + 48].copy_from_slice(&shifted);
+                                let o = dec(h, "proof", &pb2);
+                                h.expect(!o.is_panic() && !o.is_ok(), "C10.non_subgroup_point", "PoKSignature::from_bytes accepted a point outside the prime-order group", &[h.last()]);
+                            }
+                        }
+                    }
+                }
                 let dm = pick_msgs(&msgs, &d);
                 proofverify::<CS>(h, &pk, &p, hdr.as_deref(), None, Some(&dm), Some(&d));
                 let o = proofverify::<CS>(h, &pk, &p, hdr.as_deref(), ph.as_deref(), Some(&[b"x".to_vec()]), Some(&[l + 3]));
